@@ -707,6 +707,7 @@ fn check_case(ctx: &Ctx, which: Which, case: &Case<'_>, src_map: &Option<(String
             let src_basics = read_basics(&provider);
             if bare_cff {
                 let ind = crate::c18::IndependentCff::new(&out);
+                independent_cff_tables(ctx, case, &ind, &src_basics, list);
                 for (new, &old) in list.iter().enumerate() {
                     let a = guard(|| outline_of(&provider, old));
                     let b = guard(|| bare_cff_outline(&out, new as u16));
@@ -771,6 +772,9 @@ fn check_case(ctx: &Ctx, which: Which, case: &Case<'_>, src_map: &Option<(String
                 ctx.violation("C07:metrics-unreadable", || json!({"case": case.describe()}));
             }
             let ind = if otmodel::sfnt::parse(&out).map_or(false, |f| f.table(otmodel::tag(b"CFF ")).is_some()) { Some(crate::c18::IndependentCff::new(&out)) } else { None };
+            if let Some(ind) = &ind {
+                independent_cff_tables(ctx, case, ind, &src_basics, list);
+            }
             for (new, &old) in list.iter().enumerate() {
                 let a = guard(|| outline_of(&provider, old));
                 let b = guard(|| outline_of(&op, new as u16));
@@ -955,6 +959,68 @@ fn independent_cff_seam(ctx: &Ctx, case: &Case<'_>, ind: &Result<crate::c18::Ind
     if let Some(model) = crate::c18::c07_model_paths(&case.src.name) {
         if let Some(m) = model.get(old as usize) {
             cmp_outline(ctx, "C07:independent-reader-vs-model", case, old, new, Ok(Ok(Path(m.clone()))), b);
+        }
+    }
+}
+
+/// Table-level checks on an output `CFF ` table through the independent reader: (a) the advance the CFF data declares for
+/// every retained glyph (defaultWidthX / nominalWidthX + width operand) equals the advance of the source glyph - taken from
+/// the source's own CFF data when the source is CFF (charstrings are carried over), from the source hmtx when the source is
+/// CFF2 (charstrings are converted and the width operand is synthesised from hmtx); (b) when source and output are both CFF
+/// with the same keying, every DICT value that subsetting has no reason to touch is unchanged: Top DICT without the offset
+/// operators charset / Encoding / CharStrings / Private / FDArray / FDSelect, every Font DICT without Private, every
+/// Private DICT without Subrs.
+fn independent_cff_tables(ctx: &Ctx, case: &Case<'_>, ind: &Result<crate::c18::IndependentCff<'_>, String>, src_basics: &Option<(Vec<(u16, i16)>, u16)>, list: &[u16]) {
+    let out = match ind {
+        Ok(i) => i,
+        Err(_) => return, // reported by the outline seam
+    };
+    let src_sfnt = otmodel::sfnt::parse(&case.src.data);
+    let src_is_cff2 = src_sfnt.as_ref().map_or(false, |f| f.table(otmodel::tag(b"CFF2")).is_some());
+    let src_cff = if src_sfnt.as_ref().map_or(false, |f| f.table(otmodel::tag(b"CFF ")).is_some()) { crate::c18::IndependentCff::new(&case.src.data).ok() } else { None };
+    for (new, &old) in list.iter().enumerate() {
+        let got = match guard(|| out.advance(new as u16)) {
+            Ok(Ok(a)) => a,
+            _ => continue, // unreadable glyphs are reported by the outline seam
+        };
+        let want: Option<f32> = if let Some(sc) = &src_cff {
+            guard(|| sc.advance(old)).ok().and_then(|r| r.ok())
+        } else if src_is_cff2 {
+            src_basics.as_ref().and_then(|(m, _)| m.get(old as usize)).map(|m| m.0 as f32)
+        } else {
+            None
+        };
+        if let Some(w) = want {
+            ctx.bump("independent_cff_advances_compared", 1);
+            if (w - got).abs() > 0.01 {
+                ctx.violation("C07:independent-reader:cff-advance-differs", || json!({"case": case.describe(), "old_id": old, "new_id": new, "source_advance": w, "advance_declared_by_output_cff": got, "source_is_cff2": src_is_cff2}));
+            }
+        }
+    }
+    if let Some(sc) = &src_cff {
+        if sc.is_cid_keyed() != out.is_cid_keyed() {
+            return; // converted to CID-keyed: the DICTs are rebuilt
+        }
+        let strip = |d: Vec<(u16, Vec<f64>)>, drop: &[u16]| -> Vec<(u16, Vec<f64>)> { d.into_iter().filter(|e| !drop.contains(&e.0)).collect() };
+        let same = |a: &[(u16, Vec<f64>)], b: &[(u16, Vec<f64>)]| a.len() == b.len() && a.iter().zip(b.iter()).all(|(x, y)| x.0 == y.0 && x.1.len() == y.1.len() && x.1.iter().zip(y.1.iter()).all(|(p, q)| (p - q).abs() <= 1e-9 * p.abs().max(1.0)));
+        let cmp = |what: &str, a: Vec<(u16, Vec<f64>)>, b: Vec<(u16, Vec<f64>)>| {
+            ctx.bump("independent_cff_dicts_compared", 1);
+            if !same(&a, &b) {
+                ctx.violation(&format!("C07:independent-reader:{}-values-changed", what), || json!({"case": case.describe(), "source_dict": format!("{:?}", a), "output_dict": format!("{:?}", b)}));
+            }
+        };
+        // charset 15, Encoding 16, CharStrings 17, Private 18, FDArray 12 36, FDSelect 12 37
+        let top_offsets = [15u16, 16, 17, 18, 0x0c24, 0x0c25];
+        cmp("top-dict", strip(sc.top_dict(), &top_offsets), strip(out.top_dict(), &top_offsets));
+        if sc.num_font_dicts() == out.num_font_dicts() && sc.num_private_dicts() == out.num_private_dicts() {
+            for f in 0..sc.num_font_dicts() {
+                cmp("font-dict", strip(sc.font_dict(f), &[18]), strip(out.font_dict(f), &[18]));
+            }
+            for f in 0..sc.num_private_dicts() {
+                cmp("private-dict", strip(sc.private_dict(f), &[19]), strip(out.private_dict(f), &[19]));
+            }
+        } else {
+            ctx.violation("C07:independent-reader:font-dict-count-changed", || json!({"case": case.describe(), "source": [sc.num_font_dicts(), sc.num_private_dicts()], "output": [out.num_font_dicts(), out.num_private_dicts()]}));
         }
     }
 }
